@@ -104,6 +104,15 @@ func c18Body(r *RNG, thorough bool, bigLeft *int) []byte {
 		}
 		return b
 	}
+	if r.Chance(6) {
+		// around the initial buffer of the field scanner (4096) and a few multiples
+		n := r.Pick(4000, 4090, 4096, 4097, 5000, 8192, 12000) - r.Intn(3)
+		b := bytes.Repeat(r.Text(1+r.Intn(40)), n+1)[:n]
+		if c18YamlUnsafe(b) {
+			b[0] = 'x'
+		}
+		return b
+	}
 	for {
 		var b []byte
 		switch r.Intn(5) {
@@ -230,6 +239,10 @@ type c18Run struct {
 	nReload  int
 	saved    []byte
 	hasSaved bool
+	// wave d
+	forceWire   bool // every request goes through the wire parser
+	wireDiffers int  // requests whose parsed fields differed from the fields sent (diagnosis; the property's monitors judge)
+	noFinish    bool
 }
 
 func (h *c18Run) obs(tok, label, impl string) {
@@ -247,16 +260,56 @@ var c18Sentinel = hotline.TranType{0xff, 0xfe}
 func (h *c18Run) call(ty hotline.TranType, fs ...hotline.Field) ([]hotline.Transaction, any) {
 	h.tid++
 	big := false
+	total := 0
 	for _, f := range fs {
+		total += 4 + len(f.Data)
 		if len(f.Data) > 30000 {
 			big = true
 		}
 	}
-	if !big && h.c.R.Bool() {
+	mode := h.c.R.Intn(3) // 0 = registered handler, 1 = handleTransaction on a built Transaction, 2 = through the wire parser
+	if h.forceWire {
+		mode = 2
+	}
+	if big && mode == 0 {
+		mode = 1 + h.c.R.Intn(2)
+	}
+	if mode == 0 {
 		res, _, p := h.ts.Call(h.cc, mkTran(ty, h.tid, fs...))
 		return res, p
 	}
-	h.c.Dist("dispatch/handleTransaction")
+	req := mkTran(ty, h.tid, fs...)
+	if mode == 2 {
+		// what a client does: serialise (fields in an arbitrary order), and what a connection does with the
+		// bytes: the real Transaction.Write (bufio.Scanner + FieldScanner) builds the Transaction the handler sees
+		perm := c18Permute(h.c.R, fs)
+		wire := c18WireBytes(ty, h.tid, perm)
+		var parsed hotline.Transaction
+		var perr error
+		func() {
+			defer func() {
+				if r := recover(); r != nil {
+					perr = fmt.Errorf("panic in Transaction.Write: %v", r)
+				}
+			}()
+			_, perr = parsed.Write(wire)
+		}()
+		h.c.Dist("dispatch/wire-parser")
+		h.c.Dist(fmt.Sprintf("wire-request-bytes/%s", c18SizeBucket(total)))
+		if perr != nil {
+			// the connection loop drops a transaction it cannot parse: the request is lost
+			h.c.Note("wire_parse_error", perr.Error())
+			return nil, nil
+		}
+		if d := c18FieldsDiffer(perm, parsed.Fields); d != "" {
+			h.c.Note("wire_parse_differs", d)
+			h.c.Note("wire_field_order", c18FieldOrder(perm))
+			h.wireDiffers++
+		}
+		req = parsed
+	} else {
+		h.c.Dist("dispatch/handleTransaction")
+	}
 	var panicked any
 	func() {
 		defer func() {
@@ -264,7 +317,7 @@ func (h *c18Run) call(ty hotline.TranType, fs ...hotline.Field) ([]hotline.Trans
 				panicked = r
 			}
 		}()
-		h.cc.VerifHandleTransaction(mkTran(ty, h.tid, fs...))
+		h.cc.VerifHandleTransaction(req)
 	}()
 	// barrier: once the collector has taken the sentinel it has stored everything sent before it
 	h.ts.Srv.VerifOutbox() <- hotline.Transaction{Type: c18Sentinel}
@@ -275,6 +328,68 @@ func (h *c18Run) call(ty hotline.TranType, fs ...hotline.Field) ([]hotline.Trans
 		}
 	}
 	return res, panicked
+}
+
+// c18WireBytes: an independent serialiser of a request (header, field count, fields in the given order).
+func c18WireBytes(ty hotline.TranType, id uint32, fs []hotline.Field) []byte {
+	var payload []byte
+	payload = append(payload, be16(len(fs))...)
+	for _, f := range fs {
+		payload = append(payload, f.Type[0], f.Type[1])
+		payload = append(payload, be16(len(f.Data))...)
+		payload = append(payload, f.Data...)
+	}
+	b := []byte{0, 0, ty[0], ty[1]}
+	b = append(b, be32(int(id))...)
+	b = append(b, 0, 0, 0, 0)
+	b = append(b, be32(len(payload))...)
+	b = append(b, be32(len(payload))...)
+	return append(b, payload...)
+}
+
+func c18Permute(r *RNG, fs []hotline.Field) []hotline.Field {
+	out := append([]hotline.Field{}, fs...)
+	if r.Chance(30) {
+		return out // the order a well-known client uses
+	}
+	for i := len(out) - 1; i > 0; i-- {
+		j := r.Intn(i + 1)
+		out[i], out[j] = out[j], out[i]
+	}
+	return out
+}
+
+func c18FieldOrder(fs []hotline.Field) string {
+	s := ""
+	for _, f := range fs {
+		s += fmt.Sprintf("%d(%d) ", binary.BigEndian.Uint16(f.Type[:]), len(f.Data))
+	}
+	return s
+}
+
+func c18FieldsDiffer(sent, got []hotline.Field) string {
+	if len(sent) != len(got) {
+		return fmt.Sprintf("%d fields sent, %d parsed", len(sent), len(got))
+	}
+	for i := range sent {
+		if sent[i].Type != got[i].Type || !bytes.Equal(sent[i].Data, got[i].Data) {
+			return fmt.Sprintf("field %d (type %d, %d bytes) parsed as type %d, %d bytes, data equal: %v", i, binary.BigEndian.Uint16(sent[i].Type[:]), len(sent[i].Data),
+				binary.BigEndian.Uint16(got[i].Type[:]), len(got[i].Data), bytes.Equal(sent[i].Data, got[i].Data))
+		}
+	}
+	return ""
+}
+
+func c18SizeBucket(n int) string {
+	switch {
+	case n <= 4096:
+		return "le-4096"
+	case n <= 8192:
+		return "le-8192"
+	case n <= 32768:
+		return "le-32768"
+	}
+	return "gt-32768"
 }
 
 func c18Kind(res []hotline.Transaction, p any) string {
@@ -489,6 +604,12 @@ func (h *c18Run) stepCreate(parent [][]byte, name []byte, category bool) {
 	after := h.snap()
 	full := append(append([]string{}, strs(parent)...), string(name))
 	h.frame(before, after, full, true, "create-touches-other-item", "create")
+	_, parentThere := before[pathKey(strs(parent))]
+	if _, made := after[pathKey(full)]; (len(parent) == 0 || parentThere) && (kind != "done" || !made) {
+		h.c.Note("parent", fmt.Sprintf("%q", strs(parent)))
+		h.c.Note("reply_kind", kind)
+		h.viol("create-refused", fmt.Sprintf("create of %q under the existing item %q was not carried out (%s); reloads / restarts so far: %d", string(name), strs(parent), kind, h.nReload))
+	}
 	if kind == "done" {
 		it, ok := after[pathKey(full)]
 		want := hotline.NewsBundle
